@@ -410,4 +410,4 @@ def run(ck):
     ck.floor("R03", "setter scenarios", ns, 250)
     ck.floor("R03", "getter scenarios", ng, 120)
     ck.floor("R03", "pipe/listen scenarios", npipes, 90)
-    ck.floor("R03", "register pairs inferred from __enter__", len([p for p in radio.pairs.values() if p]), 22)
+    ck.floor("R03", "register pairs inferred from __enter__", len([p for p in radio.pairs.values() if p]), 12)
